@@ -1285,7 +1285,7 @@ def check_case(case, stats):
 
 def grammar_shard(shard, nshards, seed, tier):
     st_ = core.Stats()
-    n = (36000 if tier == 'quick' else 1600000) // nshards
+    n = (36000 if tier == 'quick' else 1200000) // nshards
     try:
         core.hyp_search(cases(), check_case, st_, max_examples=n, seed=seed, max_signatures=3)
     finally:
